@@ -24,6 +24,8 @@ Alphabets == [
   \* MaxLen contain every well-formed expression of that size cut after every token and
   \* extended by every closer (C16).
   tokens   |-> <<"(", ")", "[", "]", "{", "}", "#{", "'", "\"]\"", "¬)¬", "a", "1", ":k", "; (\n">>,
+  \* preamble-shaped texts (entries concatenated directly): module header, placeholder lines
+  preamble |-> <<";; $MODULE ", ";; $MODULE", ";; $A 1", ";; $", "\n", "x", "$A", "(", ")", " ", ";;", "\n\n", "1", ";; $A">>,
   tokens2  |-> <<"(", ")", "[", "]", "{", "}", "#{", "~@", "@", "^", "\"a\"", ":k", "`", "~">> ]
 Sep == IF AlphaName \in {"tokens", "tokens2"} THEN " " ELSE ""
 A == Alphabets[AlphaName]
